@@ -321,14 +321,51 @@ def aged_vs_fresh(c, t, rng):
             fresh.cleanup()
 
 
+def _hammer_client(args):
+    """one client process: requests its files back to back until the deadline; returns (requests, [(file, bytes, end)])"""
+    import socket as _s
+    ip, port, files, refs, secs, k = args
+    stop = time.monotonic() + secs
+    i, n, bad = k, 0, []
+    while time.monotonic() < stop and len(bad) < 3:
+        f = files[i % len(files)]
+        i += 1 + k % 3
+        data, end = b"", "eof"
+        try:
+            so = _s.socket(_s.AF_INET6 if ":" in ip else _s.AF_INET)
+            so.settimeout(20)
+            so.connect((ip, port))
+            so.sendall(("GET %s HTTP/1.1\r\nHost: x\r\n\r\n" % f).encode())
+            while True:
+                ch = so.recv(65536)
+                if not ch:
+                    break
+                data += ch
+        except _s.timeout:
+            end = "timeout"
+        except OSError:
+            end = "reset"
+        finally:
+            try:
+                so.close()
+            except Exception:
+                pass
+        n += 1
+        if oracles.mask_volatile(data) != refs[f]:
+            bad.append((f, data, end))
+    return n, bad
+
+
 def hammer(c, t, rng):
-    """many client threads request DIFFERENT static files back to back for a few seconds: a rare cross-worker race
-    (sub-percent per request) needs volume, not variety"""
+    """many client PROCESSES request different static files back to back for a few seconds: a rare cross-worker race
+    (one in ten thousand requests) needs volume, not variety"""
+    import multiprocessing
     files = sorted(k for k in t.files if 40 < len(t.files[k]) < 20000 and " " not in k)
     files = [k for k in files if k in t.links][:4] + [k for k in files if k not in t.links][:10]
     if len(files) < 4:
         return
     secs = 4 if c.quick else 30
+    nclients = 12
     for w in ((8,) if c.quick else (2, 4, 8, 16)):
         srv = server.Server(t.root, threads=w)
         if not srv.started:
@@ -339,34 +376,17 @@ def hammer(c, t, rng):
             for f in files:
                 data, end = srv.request(("GET %s HTTP/1.1\r\nHost: x\r\n\r\n" % f).encode())
                 refs[f] = oracles.mask_volatile(data)
-            stop = time.monotonic() + secs
-            bad, count = [], [0]
-            lock = threading.Lock()
-
-            def client(k):
-                i = k
-                n = 0
-                while time.monotonic() < stop and len(bad) < 5:
-                    f = files[i % len(files)]
-                    i += 1 + k % 3
-                    data, end = srv.request(("GET %s HTTP/1.1\r\nHost: x\r\n\r\n" % f).encode(), timeout=20)
-                    n += 1
-                    if oracles.mask_volatile(data) != refs[f]:
-                        other = next((g for g in files if g != f and t.files[g][:40] in data), None)
-                        with lock:
-                            bad.append((f, other, len(data), end))
-                with lock:
-                    count[0] += n
-            ths = [threading.Thread(target=client, args=(k,)) for k in range(8)]
-            for th in ths:
-                th.start()
-            for th in ths:
-                th.join(secs + 60)
-            c.ev(count[0])
-            c.count("hammer_requests", count[0])
+            ctx = multiprocessing.get_context("fork")
+            with ctx.Pool(nclients) as pool:
+                res = pool.map(_hammer_client, [(srv.ip, srv.port, files, refs, secs, k) for k in range(nclients)])
+            count = sum(n for n, _ in res)
+            bad = [b for _, bl in res for b in bl]
+            c.ev(count)
+            c.count("hammer_requests", count)
             c.cls("hammer", w)
-            for f, other, n, end in bad[:3]:
-                c.violation("C08:hammer:%s" % ("another-files-content" if other else "differs-from-serial"), "under 8 concurrent clients (W=%d) GET %s returned %d bytes that differ from its serial response%s (end=%s)" % (w, f, n, "; they carry the content of " + other if other else "", end), {"workers": w, "file": f, "other": other})
+            for f, data, end in bad[:3]:
+                other = next((g for g in files if g != f and t.files[g][:40] in data), None)
+                c.violation("C08:hammer:%s" % ("another-files-content" if other else "differs-from-serial"), "under %d concurrent clients (W=%d) GET %s returned %d bytes that differ from its serial response%s (end=%s)" % (nclients, w, f, len(data), "; they carry the content of " + other if other else "", end), {"workers": w, "file": f, "other": other})
         finally:
             srv.cleanup()
 
